@@ -668,9 +668,9 @@ example : String.ofList (fmtFixed4 (-85677972)) = "-8567.7972" ∧ String.ofList
 coordinates, laser state, spot size string, and any comma-free content in the columns that are not read) is read
 back by the reader's column selection as that row at its absolute time.  Hypotheses: the instant lies between 1970
 and the year 10000, the sequence number is blank (-1) or ≥ 0, and the spot size string has no comma and at most the
-16 characters the reader's field keeps. -/
+32 characters the reader's field keeps. -/
 theorem line_roundtrip (base : Int) (r : Row) (e : Extras) (h0 : 0 ≤ base + r.time)
-    (h1 : base + r.time < 253402300800000) (hs : r.seq = -1 ∨ 0 ≤ r.seq) (hl : r.spot.toList.length ≤ 16)
+    (h1 : base + r.time < 253402300800000) (hs : r.seq = -1 ∨ 0 ≤ r.seq) (hl : r.spot.toList.length ≤ 32)
     (hc : ∀ c ∈ r.spot.toList, c ≠ ',') (he : e.clean) :
     parseLine (fmtLine base r e) = some { r with time := base + r.time } :=
   parseLine_fmtLine base r e h0 h1 hs hl hc he
@@ -684,7 +684,7 @@ example : (parseLine (fmtLine 1721221978112 exTextRow (extrasOf false exTextRow)
 /-- **The whole log**: `render → parse = id` up to the absolute time -/
 theorem log_roundtrip (base : Int) (l : List (Row × Extras))
     (h : ∀ re ∈ l, 0 ≤ base + re.1.time ∧ base + re.1.time < 253402300800000 ∧ (re.1.seq = -1 ∨ 0 ≤ re.1.seq) ∧
-      re.1.spot.toList.length ≤ 16 ∧ (∀ c ∈ re.1.spot.toList, c ≠ ',') ∧ re.2.clean) :
+      re.1.spot.toList.length ≤ 32 ∧ (∀ c ∈ re.1.spot.toList, c ≠ ',') ∧ re.2.clean) :
     parseLog (renderLog base l) = some ((l.map (·.1)).map (shiftRow base)) :=
   parseLog_renderLog base l h
 
@@ -712,12 +712,12 @@ theorem sync_text_model (base : Int) (rows : List Row) (b : Bool) (h : textHyp b
 /-- **C08 from the text of the log.**  A rendered acquisition in the domain of the ground truth, written as text
 with laser clock 0 at any instant `base` ≥ 1 ms after 1970-01-01 that keeps the log before the year 10000 — so the
 run may cross midnight, a month's or year's end, the leap day, or last longer than a day —, any comma-free content in
-the unread columns, spot size strings of at most 16 characters: the lines are read back, and their synchronisation
+the unread columns, spot size strings of at most 32 characters: the lines are read back, and their synchronisation
 is the ground truth, exactly as in `sync_render`. -/
 theorem sync_render_text (a : Acq) (sel : Option (List Int)) (isnan : Nat → Bool) (rd : Rendered)
     (hyp : truthHyp a sel = true) (hr : render a sel = some rd) (base : Int) (l : List (Row × Extras))
     (hl : l.map (·.1) = rd.rows) (hex : ∀ re ∈ l, re.2.clean) (hb0 : 1 ≤ base)
-    (hb1 : ∀ r ∈ rd.rows, base + r.time < 253402300800000) (hspot : ∀ p ∈ a.patterns, p.spotL.length ≤ 16) :
+    (hb1 : ∀ r ∈ rd.rows, base + r.time < 253402300800000) (hspot : ∀ p ∈ a.patterns, p.spotL.length ≤ 32) :
     ∃ rows', parseLog (renderLog base l) = some rows' ∧
       ∃ r, sync rows' sel rd.times rd.delay isnan false = .ok r ∧
         r.origin = truthOrigin a sel ∧
